@@ -62,6 +62,14 @@ const (
 	//   "C:/ /a" -> ".." (lexically <dest>/C:; through the first link, were it created as a link: <dest>/a -> the parent of <dest>)
 	// a file entry named a/... would then be written next to the destination although its name resolves inside
 	shapeLinkChain = "after-link-chain"
+	// an entry that designates the destination itself ("./", then "a/../" as a second spelling), then the file entry:
+	// accepting the first must not make the parent of the destination an accepted place for what follows
+	shapeAfterSelf  = "after-self"
+	shapeAfterSelf2 = "after-self:a/../"
+	// one entry whose unix mode is that of a named pipe / a character device / a socket
+	shapeFifo    = "fifo"
+	shapeCharDev = "chardev"
+	shapeSocket  = "socket"
 )
 
 // Destination forms (what is passed to Unzip). The destination directory is called "a" (a token of the alphabet, so
@@ -180,7 +188,7 @@ type bound struct {
 //	            names <= MainTokens (the rest)     x {file, dir} x abs x {os, mem}, a on mem                  (quick)
 //	extras    : nine hand-picked longer names x {file, deflate, after-dir} x 7 forms x {os, mem} x {no limits, recursive}; nested
 //	deep      : deep sub-alphabet <= DeepTokens    x {file, dir, after-dir} x abs x {os, mem}, a on mem
-//	shapes    : variant names x {deflate, symlink, after-symlink, after-link-chain} x {abs, a} x {os, mem}
+//	shapes    : variant names x {deflate, symlink, after-symlink, after-link-chain, after-self (two spellings), fifo, chardev, socket} x {abs, a} x {os, mem}
 //	limits    : variant names x {file, dir} x {abs, a} x {os, mem} x {non-recursive limits, recursive limits}
 //	dest-missing : variant names x {file, dir} x {abs, abs/, a, a/../a} x {os, mem}, destination absent
 //	nested1/2 : variant names inside an inner archive at depth 1 / 2, recursive limits, {file, dir} x {abs, a} x {os, mem}
@@ -249,7 +257,7 @@ func space(thorough bool) ([]*block, bound) {
 		&block{id: "extras", names: extras, shapes: []string{shapeFile, shapeDeflate, shapeAfterDir}, targets: product(all, "os", "mem"), destExists: true, limits: []string{limNone, limRecursive}},
 		&block{id: "extras-nested", names: extras, shapes: []string{shapeFile}, outers: [][]string{{".zip"}, {".zip", ".jar"}}, targets: product(absRel, "os", "mem"), destExists: true, limits: rec},
 		&block{id: "deep", names: deepNames, shapes: mainShapes, targets: longTargets, destExists: true, limits: none},
-		&block{id: "shapes", names: variantNames, shapes: []string{shapeDeflate, shapeSymlink, shapeAfterSymlink, shapeLinkChain}, targets: product(absRel, "os", "mem"), destExists: true, limits: none},
+		&block{id: "shapes", names: variantNames, shapes: []string{shapeDeflate, shapeSymlink, shapeAfterSymlink, shapeLinkChain, shapeAfterSelf, shapeAfterSelf2, shapeFifo, shapeCharDev, shapeSocket}, targets: product(absRel, "os", "mem"), destExists: true, limits: none},
 		&block{id: "limits", names: variantNames, shapes: fileDir, targets: product(absRel, "os", "mem"), destExists: true, limits: []string{limFlat, limRecursive}},
 		&block{id: "dest-missing", names: variantNames, shapes: fileDir, targets: product([]string{destAbs, destAbsSlash, destRel, destUpRel}, "os", "mem"), destExists: false, limits: none},
 		&block{id: "nested1", names: variantNames, shapes: fileDir, outers: outers1, targets: product(absRel, "os", "mem"), destExists: true, limits: rec},
